@@ -589,16 +589,16 @@ func (p *Proxy) handle(ctx *Context, conn net.Conn, brw *bufio.ReadWriter) error
 	err = res.Write(brw)
 	if err != nil {
 		log.Errorf("martian: got error while writing response back to client: %v", err)
-		if _, ok := err.(*trafficshape.ErrForceClose); ok {
-			closing = errClose
-		}
+		// Whatever failed (the origin going away in the middle of the body, the client going
+		// away, a traffic shaping close action), the response on the wire is incomplete. The
+		// connection cannot carry another exchange: the next response would be read as the
+		// rest of this one.
+		closing = errClose
 	}
 	err = brw.Flush()
 	if err != nil {
 		log.Errorf("martian: got error while flushing response back to client: %v", err)
-		if _, ok := err.(*trafficshape.ErrForceClose); ok {
-			closing = errClose
-		}
+		closing = errClose
 	}
 	return closing
 }
